@@ -28,6 +28,8 @@ def requestedOk (t : Ty) : Bool :=
 def requestedPlugin (t : Ty) : Ty := t.out 0
 
 /-- **for every Go type**: the regenerated `isFactoryType` accepts exactly `func() (Interface [, error])` -/
+theorem kindFunc (a b : Tys) : (Ty.func a b).kind = Kind.func := rfl
+
 theorem isFactoryType_eq (t : Ty) : isFactoryType t = requestedOk t := by
   cases t with
   | base k i m => cases k <;> simp [isFactoryType, requestedOk, Ty.kind, Ty.numIn, Ty.numOut]
@@ -35,14 +37,13 @@ theorem isFactoryType_eq (t : Ty) : isFactoryType t = requestedOk t := by
   | func ins outs =>
     rcases ins with _ | ⟨a, ri⟩
     · rcases outs with _ | ⟨x, _ | ⟨e, _ | ⟨e2, ro⟩⟩⟩
-      · simp [isFactoryType, requestedOk, Ty.kind, Ty.numIn, Ty.numOut, Tys.len]
-      · by_cases hx : x.kind = Kind.iface <;>
-          simp [isFactoryType, requestedOk, Ty.kind, Ty.numIn, Ty.numOut, Ty.out, Tys.len, Tys.get, hx]
-      · by_cases hx : x.kind = Kind.iface <;> by_cases he : e = Ty.error <;>
-          simp [isFactoryType, requestedOk, Ty.kind, Ty.numIn, Ty.numOut, Ty.out, Tys.len, Tys.get, hx, he]
-      · simp [isFactoryType, requestedOk, Ty.kind, Ty.numIn, Ty.numOut, Tys.len]
-        omega
-    · simp [isFactoryType, requestedOk, Ty.kind, Ty.numIn, Ty.numOut, Tys.len]
+      · simp [isFactoryType, requestedOk, kindFunc, Ty.numIn, Ty.numOut, Tys.len]
+      · cases hx : x.kind <;>
+          simp [isFactoryType, requestedOk, kindFunc, Ty.numIn, Ty.numOut, Ty.out, Tys.len, Tys.get, hx]
+      · cases hx : x.kind <;> by_cases he : e = Ty.error <;>
+          simp [isFactoryType, requestedOk, kindFunc, Ty.numIn, Ty.numOut, Ty.out, Tys.len, Tys.get, hx, he]
+      · simp [isFactoryType, requestedOk, kindFunc, Ty.numIn, Ty.numOut, Tys.len]
+    · simp [isFactoryType, requestedOk, kindFunc, Ty.numIn, Ty.numOut, Tys.len]
 
 /-- `Registry.New`'s own expectations: the requested plugin type is an interface and the name is not empty -/
 theorem newExpects_eq (t : Ty) (name : String) :
